@@ -120,6 +120,12 @@ CHECKS['C15'] = dict(
          'serialised by the real to_string(), re-loaded by the real from_source() and compared argument by argument (cleaned values) and by execution result; likewise repr(float) witnesses and extreme numbers, 9 structure families (references by object, nested lists, metadata order, fixed point) and an EEMS model run before/after.',
     note='Trusted: z3 regex; S-repr contract; the serialiser itself runs on concrete witnesses (C-level str.format cannot be executed symbolically) - stated as a bound in the evidence.',
     ref='DESIGN.md §4 C15')
+CHECKS['C10'] = dict(
+    technique='z3 regular-expression lemmas over the live PLY master regex (one lemma per lexeme class) + symbolic execution of the real LRParser and grammar actions on token streams with z3-valued tokens, against the generating abstract program and a reference recogniser',
+    text='L1: for 18 lexeme classes (identifiers, integers, decimals incl. exponent forms, quoted strings with the standard escapes, comments, line breaks, punctuation, one-token unquoted text) z3 proves on the live master regex that the lexeme followed by any delimiter is exactly one match of the expected rule (every lemma model is replayed on the real lexer), and unquoted text of the user-guide class (inner blanks, digit-leading, boolean words) must come back as written on solver-produced witnesses. '
+         'L3: solver-chosen abstract programs (commands, EEMS-2 commands, arguments, 10 value kinds, nested lists, tuples, trailing commas) are rendered to token streams whose values and line numbers are z3 terms; the real LRParser + actions must return a tree term-equal to the abstract program; every sampled single-token deletion/duplication/substitution must be accepted iff a reference recogniser accepts and otherwise raise SyntaxError. LC: 128 concrete layouts of one program through the real Parser.',
+    note='Trusted: z3 regex/strings; A-lex (greedy = longest, checked on each lemma model); stub lexer in L3 justified by L1; reference grammar in DESIGN.md Appendix D (ambiguous bracketed colon text not asserted).',
+    ref='DESIGN.md §4 C10')
 NOT_YET = {}
 ALL = ['C%02d' % i for i in range(1, 21)]
 
